@@ -225,3 +225,72 @@ Theorem searcher_spec_partial :
      run_script lf (S (S fuel)) (mk_disj_slice (tsearchers sn l) k) ops = Ok outs).
 Proof. exact (conj term_searcher_script (conj conjunction_of_terms_script disjunction_of_terms_script)). Qed.
 Print Assumptions searcher_spec_partial.
+
+(* ---- nested trees ---- *)
+From Bluge Require Import Search.SearchersProofsTree Search.SearchersProofsGeneral.
+
+(* search_exact for ARBITRARILY NESTED boolean queries: every clause is a term query, match-none or
+   again a boolean query (qok d q: depth at most d, every minShould >= 0, no boolean consisting of
+   must-not clauses only — that one compiles to a match-all searcher); any number of must / should /
+   must-not clauses (slice disjunctions up to DisjunctionHeapTakeover = 10 clauses, heap
+   disjunctions above), over every well-formed snapshot (segments, pending deletions).  The
+   compiled tree is driven exactly as the collectors drive it; nested booleans are driven by their
+   parents with Next and Advance.  The proof goes through the iterator contract of every node
+   (SearchersProofsTree.Cl_good: induction on the depth) including the two places where the
+   implementation leaves the forward discipline: a conjunction that ran dry is advanced again and
+   re-advances its finished children below the point where they finished (postings iterators then
+   restart or return left-over postings of segments they jumped over), and the optional should
+   child of a boolean with must clauses is advanced to targets below its cursor.  The fuel `run`
+   provides is shown sufficient (the result is Ok).
+   Still open (full statement: forall sn q, wf_sn sn -> run sn copts_default q = Ok (sem_numbers q sn)):
+   phrase, multi-term (prefix / range / fuzzy ...), match-all and doc-set leaves; the conjunction
+   push-down (copts_default) for nested queries — it is proved for flat ones (search_exact_partial). *)
+Theorem search_exact_nested_partial : forall sn q d,
+  wf_sn sn -> qok d q -> (2 * d + 1 <= depth_fuel q)%nat ->
+  run sn copts_plain q = Ok (sem_numbers q sn).
+Proof. exact search_exact_nested. Qed.
+Print Assumptions search_exact_nested_partial.
+
+Example search_exact_nested_hypotheses_hold :
+  wf_sn ex_sn /\ qok 2 ex_nested /\ (2 * 2 + 1 <= depth_fuel ex_nested)%nat /\
+  run ex_sn copts_plain ex_nested = Ok [0; 3].
+Proof. exact search_exact_nested_example. Qed.
+Print Assumptions search_exact_nested_hypotheses_hold.
+
+(* searcher_spec for the compiled tree of every such query: any script of Next / Advance n calls
+   that starts with Next (Advance as the first call of a boolean searcher skips the first match of
+   its should child: every caller starts with Next) and whose Advance targets lie at or above the
+   watermark (above the last number returned, not below an earlier target) returns exactly the
+   remaining members of the denotation qS (the live numbers whose document satisfies sem q),
+   Advance n the least one >= n, until the end is reported. *)
+Theorem searcher_spec_nested_partial : forall sn q d s W lf fuel ops outs,
+  wf_sn sn -> qok d q -> compile sn copts_plain q = Ok s ->
+  fuel_ok sn W lf -> (swidth s <= W)%nat -> (2 * d + 1 <= fuel)%nat ->
+  starts_with_next ops -> script_ok (qS sn q) 0 ops outs ->
+  run_script lf fuel s ops = Ok outs.
+Proof. exact searcher_spec_nested. Qed.
+Print Assumptions searcher_spec_nested_partial.
+
+(* the node-by-node contract behind both: for every depth d the clause-level family Cl d (term
+   searcher, match-none, booleans over conjunctions / slice and heap disjunctions of depth-(d-1)
+   clauses) meets the whole contract for every fuel >= 2 d + 1: exact Next, exact forward Advance,
+   a fresh searcher started with Next, the end reported again, and soundness outside the
+   discipline (wk_adv / wk_next). *)
+Theorem searcher_spec_tree : forall sn, wf_sn sn -> forall W lf, fuel_ok sn W lf ->
+  forall d, good lf (Cl sn W d) (2 * d + 1).
+Proof. exact Cl_good. Qed.
+Print Assumptions searcher_spec_tree.
+
+(* multi_term_spec: the searcher of a multi-term leaf (prefix, range, wildcard, regexp, fuzzy,
+   numeric / date range: newMultiTermSearcherInternal) is a slice or heap disjunction with min 0
+   over the term searchers of the candidate terms; for EVERY list of candidate terms, any script of
+   Next / Advance calls (targets at or above the watermark) returns exactly the remaining numbers
+   whose document holds at least one of the terms.  Not proved: that the candidate list computed
+   from the dictionary (multi_terms) holds exactly the terms the predicate accepts, and the use
+   of such leaves inside nested queries (the leaf family of searcher_spec_tree has terms only). *)
+Theorem multi_term_spec_partial : forall sn f ts W lf fuel ops outs,
+  wf_sn sn -> fuel_ok sn W lf -> (swidth (multi_term sn copts_plain f ts) <= W)%nat -> (2 <= fuel)%nat ->
+  script_ok (multi_S sn f ts) 0 ops outs ->
+  run_script lf fuel (multi_term sn copts_plain f ts) ops = Ok outs.
+Proof. exact multi_term_spec. Qed.
+Print Assumptions multi_term_spec_partial.
